@@ -58,6 +58,15 @@ pub struct JoinTrace {
 
 pub struct JoinWorld;
 
+/// the window as the library gets it; `window_secs == u64::MAX` stands for `Duration::MAX` ("no bound")
+fn win_dur(t: &JoinTrace) -> Duration {
+    if t.window_secs == u64::MAX {
+        Duration::MAX
+    } else {
+        Duration::from_millis(t.window_secs.saturating_mul(1000).saturating_add(t.window_frac_ms))
+    }
+}
+
 fn mk_event(side: &str, idx: usize, e: &Ev) -> StreamEvent {
     let mut data = HashMap::new();
     if let Some(k) = e.key {
@@ -84,7 +93,7 @@ fn build_node(t: &JoinTrace) -> StreamJoinNode {
         "right".to_string(),
         JoinType::Inner,
         JoinStrategy::TimeWindow {
-            duration: Duration::from_millis(t.window_secs * 1000 + t.window_frac_ms),
+            duration: win_dur(t),
         },
         Box::new(|e: &StreamEvent| match e.data.get("k") {
             Some(Value::String(s)) => Some(s.clone()),
@@ -109,7 +118,7 @@ fn mirror_node(t: &JoinTrace) -> StreamJoinNode {
         "right".to_string(),
         "left".to_string(),
         JoinType::Inner,
-        JoinStrategy::TimeWindow { duration: Duration::from_millis(t.window_secs * 1000 + t.window_frac_ms) },
+        JoinStrategy::TimeWindow { duration: win_dur(t) },
         Box::new(|e: &StreamEvent| match e.data.get("k") {
             Some(Value::String(s)) => Some(s.clone()),
             _ => None,
@@ -392,7 +401,7 @@ fn run_schedule(
         };
         let evictable = wms
             .iter()
-            .any(|(st, w)| *st > first_arr && *st < second_arr && *w - first_ts > t.window_secs as i64);
+            .any(|(st, w)| *st > first_arr && *st < second_arr && *w - first_ts > i64::try_from(t.window_secs).unwrap_or(i64::MAX));
         if !evictable {
             required.insert((*l, *r));
         } else if let Some(o) = obs.as_deref_mut() {
@@ -535,6 +544,8 @@ impl World for JoinWorld {
         // unit scale (swarm): the same history in seconds, minutes or hours
         let scale = *rng.pick(&[1u64, 1, 1, 1, 60, 3600]);
         let window_secs = window_secs * scale;
+        // one run in 40: a window that means "no bound" (Duration::MAX) — every pair of equal keys joins
+        let window_secs = if rng.chance(1, 40) { u64::MAX } else { window_secs };
         // epoch offset (swarm): stamps are epoch seconds in real use (~1.7e9), close to 2^31; also 2^32 and beyond
         let offset = *rng.pick(&[0u64, 0, 0, 1_700_000_000, (1 << 31) - 5, (1u64 << 32) - 5, 1u64 << 40]);
         let scale_ev = |v: Vec<Ev>| -> Vec<Ev> { v.into_iter().map(|e| Ev { ts: e.ts * scale + offset, ..e }).collect() };
@@ -571,6 +582,9 @@ impl World for JoinWorld {
         }
         if t.left.iter().chain(&t.right).any(|e| e.ts >= 1 << 31) {
             obs.count("probe.timestamps_beyond_2_to_the_31");
+        }
+        if t.window_secs == u64::MAX {
+            obs.count("probe.window_that_means_unbounded");
         }
         if t.window_secs >= 60 {
             obs.count("probe.window_of_a_minute_or_more");
